@@ -185,6 +185,18 @@ def main(ctx):
     for n, v in singles:
         for rel, lang in rng.sample(comp, 1 if quick else 6):
             cases.append(family.Case(corpus.read(rel), lang, c_domain({n: v}, lang), {'kind': 'corpus', 'file': rel, 'cfgkind': 'single-sweep'}))
+    # enumerated brace shapes (dangling-else family) x brace options
+    bcfgs = [{'mod_full_brace_if': 'remove', 'mod_full_brace_for': 'remove', 'mod_full_brace_while': 'remove', 'mod_full_brace_do': 'remove'},
+             {'mod_full_brace_if': 'add', 'mod_full_brace_for': 'add', 'mod_full_brace_while': 'add'},
+             {'mod_full_brace_if': 'remove'}, {'mod_full_brace_for': 'remove'}, {'mod_full_brace_while': 'remove'},
+             {'mod_full_brace_if_chain': '1'}, {'mod_full_brace_if_chain': '2'}, {'mod_full_brace_if_chain': '3'},
+             {'mod_full_brace_if': 'remove', 'nl_after_semicolon': 'true', 'mod_full_brace_nl': '2'}]
+    nshape = 0
+    for name, src in gen_c.brace_shapes(2 if quick else 3):
+        nshape += 1
+        for bc in bcfgs:
+            cases.append(family.Case(src.encode(), 'C', bc, {'kind': 'brace-shape', 'file': 'shape:' + name, 'cfgkind': 'brace-options'}))
+    ctx.extra['brace_shapes'] = nshape
     cases.sort(key=lambda c: (c.origin.get('file', ''), ))
     raw = family.explore(ctx, judge, cases, batch=8)
     raw += family.hyp_explore(ctx, judge, make_strategy, to_case, shards=16, examples=(250 if quick else 6000))
